@@ -535,3 +535,97 @@ Theorem deliver_only_authentic_est est W lease s w p e q :
 Proof.
   destruct (recv_est_cases est W lease s w) as [H | H]; rewrite H; [intros [] | auto].
 Qed.
+
+(* ---- unprotected application data, early application data *)
+
+Lemma recv_epoch0_no_delivery W lease s w : w_epoch w = 0 -> deliveries (snd (recv W lease s w)) = [].
+Proof.
+  intros He. destruct (deliveries (snd (recv W lease s w))) as [|[[p e] q] l] eqn:Hd; [reflexivity|].
+  assert (Hin : In (p, e, q) (deliveries (snd (recv W lease s w)))) by (rewrite Hd; left; reflexivity).
+  apply deliver_only_authentic in Hin. destruct Hin as (_ & _ & Hne & _). congruence.
+Qed.
+
+Lemma recv_est_epoch0_no_delivery est W lease s w :
+  w_epoch w = 0 -> deliveries (snd (recv_est est W lease s w)) = [].
+Proof.
+  intros He. destruct (recv_est_cases est W lease s w) as [H|H]; rewrite H.
+  - reflexivity.
+  - apply recv_epoch0_no_delivery; exact He.
+Qed.
+
+(* an unprotected application-data record has no effect at all on the record layer *)
+Theorem unprotected_appdata_inert est W lease s w p :
+  w_epoch w = 0 -> w_clear w = CApp p -> recv_est est W lease s w = (s, []).
+Proof.
+  intros He Hc. destruct (recv_est_cases est W lease s w) as [H|H]; [exact H|]. rewrite H.
+  unfold recv. rewrite He.
+  destruct (r_closed s); [reflexivity|].
+  replace (r_epoch s <? 0) with false by (symmetry; apply N.ltb_ge; lia).
+  destruct (check maxseq48 (get_win W 0 (r_wins s)) (w_seq w)); cbn [negb]; [|reflexivity].
+  cbn [N.eqb]. rewrite Hc. unfold dispatch. rewrite He. reflexivity.
+Qed.
+
+Lemma accept_nil k : accept_payloads k (k_rs k) [] = k.
+Proof.
+  unfold accept_payloads. destruct k as [rs est early chan]; cbn [k_rs k_est k_early k_chan].
+  destruct est; rewrite ?firstn_nil, ?app_nil_r; reflexivity.
+Qed.
+
+(* in every state of the connection - handshake running or complete - an unprotected application-data
+   record is neither delivered nor parked: the whole connection state is unchanged and Read gets nothing *)
+Theorem unprotected_appdata_never_delivered W k w p :
+  w_epoch w = 0 -> w_clear w = CApp p -> cstep W k (KArrive w) = (k, []).
+Proof.
+  intros He Hc. unfold cstep, cstep_with.
+  rewrite (unprotected_appdata_inert (k_est k) W true (k_rs k) w p He Hc).
+  unfold payloads; cbn [deliveries map]. rewrite accept_nil. reflexivity.
+Qed.
+
+(* whatever its content type and body, a record of epoch 0 adds nothing to what Read will return *)
+Theorem unprotected_record_adds_nothing W k w :
+  w_epoch w = 0 ->
+  k_early (fst (cstep W k (KArrive w))) = k_early k /\ k_chan (fst (cstep W k (KArrive w))) = k_chan k /\
+  snd (cstep W k (KArrive w)) = [].
+Proof.
+  intros He. unfold cstep, cstep_with.
+  pose proof (recv_est_epoch0_no_delivery (k_est k) W true (k_rs k) w He) as Hd.
+  destruct (recv_est (k_est k) W true (k_rs k) w) as [s' os]. cbn [snd] in Hd.
+  unfold payloads. rewrite Hd. cbn [map fst snd]. unfold accept_payloads.
+  destruct (k_est k); cbn [k_early k_chan]; rewrite ?firstn_nil, ?app_nil_r; auto.
+Qed.
+
+
+(* ... and it vanishes from every history: the reads of a run that contains it are those of the run without it *)
+Theorem unprotected_appdata_vanishes W k w p ops :
+  w_epoch w = 0 -> w_clear w = CApp p -> crun W k (KArrive w :: ops) = crun W k ops.
+Proof.
+  intros He Hc. unfold crun. cbn [crun_with]. fold cstep.
+  rewrite (unprotected_appdata_never_delivered W k w p He Hc).
+  destruct (crun_with recv_est W k ops) as [k2 r2]. reflexivity.
+Qed.
+
+(* the refusal must not wait for the handshake to complete: in the variant of the model whose guard is
+   conditioned on "handshake complete" a record that nothing authenticates, arriving while the handshake
+   runs, is parked and is the first payload Read returns *)
+Definition forged_app_record : wire :=
+  {| w_ctype := ct_app; w_epoch := 0; w_seq := 40; w_cid := []; w_auth := None; w_clear := CApp [70; 79; 82; 71; 69; 68] |}.
+
+Theorem guard_if_established_refuted :
+  exists (w : wire) (p : bytes),
+    w_epoch w = 0 /\ w_auth w = None /\ w_clear w = CApp p /\
+    snd (crun_with recv_guard_if_established 64 (cinit [] false) [KArrive w; KEstablish; KRead]) = [p] /\
+    snd (crun 64 (cinit [] false) [KArrive w; KEstablish; KRead]) = [].
+Proof.
+  exists forged_app_record, [70; 79; 82; 71; 69; 68].
+  repeat split; vm_compute; reflexivity.
+Qed.
+
+(* the variant differs from the code's step ONLY on unprotected application data before establishment *)
+Lemma guard_variant_agrees_elsewhere est W lease s w :
+  est = true \/ unprotected_app w = None ->
+  recv_guard_if_established est W lease s w = recv_est est W lease s w.
+Proof.
+  intros [H|H]; unfold recv_guard_if_established.
+  - subst est. destruct (unprotected_app w); reflexivity.
+  - rewrite H. reflexivity.
+Qed.
